@@ -21,10 +21,15 @@ Expand(g) ==
     \o << [ctor |-> "combine", name |-> g.name, run |-> "", args |-> <<>>, opts |-> <<>>, par |-> FALSE,
            deps |-> [i \in 1..Len(g.insts) |-> Rel(g.insts[i].name)]] >>
 
+(* BadArgs / BadOpts stand for an ill-typed value (a tuple / string / generator for args, a list of pairs for options): the explicit
+   run_experiment(...) definition is rejected by the schema, so the group must be rejected too *)
+BadArgs == <<"__BAD__">>
+BadOpts == << <<"__BAD__", "x">> >>
+IllTyped(defs) == \E i \in 1..Len(defs) : defs[i].args = BadArgs \/ defs[i].opts = BadOpts
 Names(defs) == [i \in 1..Len(defs) |-> defs[i].name]
 HasDup(s) == \E i, j \in 1..Len(s) : i # j /\ s[i] = s[j]
 (* the expansion is rejected exactly when two definitions of the file end up with the same name *)
-Rejected(g, others) == HasDup(others \o Names(Expand(g)))
+Rejected(g, others) == HasDup(others \o Names(Expand(g))) \/ IllTyped(Expand(g))
 
 (***************************************************************************)
 (* the abstract groups enumerated for conformance                          *)
@@ -36,6 +41,8 @@ Insts == [name : InstNames, args : ArgChoices, opts : OptChoices, par : BOOLEAN]
 Plain(n, p) == [name |-> n, args |-> <<>>, opts |-> <<>>, par |-> p]
 InstSeqs == {<<>>} \cup {<<a>> : a \in Insts} \cup {<<a, b>> : a \in Insts, b \in {x \in Insts : x.args = <<>> \/ x.opts = <<>>}}
             \cup {<<Plain("e1", p), Plain("e2", q), Plain(n3, p)>> : p, q \in BOOLEAN, n3 \in {"e3", "e1"}}
+            \cup {<<[name |-> "e1", args |-> a, opts |-> o, par |-> FALSE]>> : a \in {<<>>, BadArgs}, o \in {<<>>, BadOpts}}
+            \cup {<<Plain("e1", TRUE), [name |-> "e2", args |-> BadArgs, opts |-> <<>>, par |-> FALSE]>>}
 DepChoices == {<<>>, <<":d1">>, <<":d1", "//:d2">>}
 Groups == [name : {"g"}, run : {"true"}, deps : DepChoices, chain : BOOLEAN, insts : InstSeqs]
 
